@@ -64,7 +64,7 @@ func c10ViewOf(x *nsNode, peerAddrs []netip.Addr) c10View {
 
 func TestC10_ReplayedHandshakes(t *testing.T) {
 	nsSetT(t)
-	vk.Check(t, 150, func(rt *rapid.T) {
+	vk.Check(t, 1000, func(rt *rapid.T) {
 		nsBubble(rt, func(rt *rapid.T, s *nsSim) {
 			w := nsGenWorld(rt, s, nsWorldOpts{minHosts: 2, maxHosts: 3, staticAll: true, v6: true})
 			w.pid = "C10"
